@@ -260,6 +260,15 @@ def run_case(ctx, name, params):
             comp = [tuple(x + shift for x in q) for q in ref]
         else:
             comp = [r.choice(ref) for _ in range(r.randint(1, 4))] + [pt() for _ in range(r.randint(1, 4))]
+        K = 1.0
+        if r.random() < 0.25:
+            # the same point sets at another magnitude (exact: a power of two); distances and shifts scale with them
+            K = 2.0 ** r.choice([-400, -100, -30, 30, 100, 400])
+            ref = [tuple(x * K for x in q) for q in ref]
+            comp = [tuple(x * K for x in q) for q in comp]
+            shift = None if shift is None else shift * K
+            ctx.count("indicator_cases_at_rescaled_magnitude")
+        atol = 1e-12 * K
         wit = lambda: {"reference": ref, "computed": comp, "mode": mode, "shift": shift}
         if len(ref) >= 2 and len(comp) >= 2:
             ctx.nontrivial((tuple(ref), tuple(comp)))
@@ -271,7 +280,7 @@ def run_case(ctx, name, params):
                 return
             ctx.count("gd_checks")
             exp = oracles.gd_ref(ref, comp, norm)
-            if not oracles.close(g, exp, 1e-9, 1e-12):
+            if not oracles.close(g, exp, 1e-9, atol):
                 ctx.violation("indicator/gd/value", "gd(%s)=%r, mean nearest-reference distance is %r" % (norm, g, exp), wit())
                 return
             sub = all(c in set(ref) for c in comp)
@@ -286,7 +295,7 @@ def run_case(ctx, name, params):
             return
         ctx.count("epsilon_checks")
         exp = oracles.eps_add_ref(ref, comp)
-        if not oracles.close(e, exp, 1e-9, 1e-12) or e < 0:
+        if not oracles.close(e, exp, 1e-9, atol) or e < 0:
             ctx.violation("indicator/epsilon_add/value", "epsilon_add=%r, max-min-max floored at 0 is %r" % (e, exp), wit())
             return
         if mode == "identical" and e != 0:
@@ -294,7 +303,7 @@ def run_case(ctx, name, params):
             return
         if mode == "shifted":
             ctx.count("epsilon_shift_checks")
-            if not oracles.close(e, shift, 1e-9, 1e-12):
+            if not oracles.close(e, shift, 1e-9, atol):
                 ctx.violation("indicator/epsilon_add/shift", "reference shifted by %r gives epsilon_add=%r" % (shift, e), wit())
                 return
         ctx.count("cases")
